@@ -293,6 +293,32 @@ def build(c, variant):
         cv4 = abs(x[1])
         m.st(y + 8 >= cv4)
         w.R.append(cv4 - y - 8)
+    w.K = []
+    if variant.get("expcones"):
+        # exponential-cone constraints over event-wise static decisions: (a, b, c) in K_exp for the decisions of every scenario
+        m.st(rsome.exp(x[0]) <= y + 12)
+        w.K.append((x[0], y + 12, 1.0))
+        m.st(rsome.expcone(y + 13, x[1] - 2, 1.0))
+        w.K.append((x[1] - 2, y + 13, 1.0))
+        m.st(rsome.expcone(2 * y + 15, 0.5 * x[0] + 1, x[1] + 11))
+        w.K.append((0.5 * x[0] + 1, 2 * y + 15, x[1] + 11))
+        m.st(rsome.pexp(x[0], x[1] + 11) <= y + 14)
+        w.K.append((x[0], y + 14, x[1] + 11))
+        m.st(rsome.log(x[1] + 11) >= x[0] - 3)
+        w.K.append((x[0] - 3, x[1] + 11, 1.0))
+    if variant.get("equalities"):
+        # equalities: among static decisions, and a robust one that pins the rule  y(z) - z == x0 - 1  for every z
+        eq1 = x[0] + 2 * x[1] - 3
+        m.st(eq1 == 0)
+        w.R += [eq1, -eq1]
+        if variant.get("adapt") in ("affine", "both"):
+            eq2 = y - zz - x[0] + 1
+            m.st(eq2 == 0)
+            w.R += [eq2, -eq2]
+        else:
+            eq3 = x[0] * zz - x[1] * zz
+            m.st(eq3 == 0)
+            w.R += [eq3, -eq3]
     m.st(x <= 10, x >= -10, y <= 10, y >= -10)
     w.m, w.x, w.y, w.z, w.fs, w.nz, w.S = m, x, y, z, fs, nz, S
     return w
@@ -327,6 +353,10 @@ VARIANTS = {
     "event,E-affine,econstr,expt-overlap": dict(obj="E-affine", expt="overlap", adapt="event", econstr=True),
     "static,E-affine,expt-all,econstr-with-its-own-set": dict(obj="E-affine", expt="all", econstr="own-set"),
     "static,R-objective,expt-per-scenario,econstr-with-its-own-set": dict(obj="R", expt="per-scenario", econstr="own-set"),
+    "event,E-affine,expt-all,exp-cone-constraints": dict(obj="E-affine", expt="all", adapt="event", expcones=True),
+    "event-wise-bound,E-affine,expt-all,exp-cone-constraints": dict(obj="E-affine", expt="all", adapt="event-y", expcones=True),
+    "event,E-affine,expt-all,equalities": dict(obj="E-affine", expt="all", adapt="event", equalities=True),
+    "affine,E-affine,expt-all,equalities": dict(obj="E-affine", expt="all", adapt="affine", equalities=True),
     "static,maxinf-E-affine,expt-all": dict(obj="maxinf-E-affine", expt="all"),
     "event,maxinf-E-affine,expt-per-scenario,prob-ub": dict(obj="maxinf-E-affine", expt="per-scenario", prob="ub", adapt="event"),
     "static,max-R-objective,expt-all,econstr": dict(obj="max-R", expt="all", econstr=True),
@@ -394,6 +424,10 @@ def run_variant(vname):
             for s in range(w.S):
                 vals = dec_value(e, w.m, s, X, Z)
                 t.append(p_implies(p_and(feas, in_support(w, s, Z)), p_and(*[p_le(v, 0) for v in vals])))
+        for (ea, eb, ec) in w.K:
+            for s in range(w.S):
+                va, vb, vc = (dec_value(e, w.m, s, X, Z)[0] for e in (ea, eb, ec))
+                t.append(p_implies(feas, D.exp_holds(va, vb, vc)))
         for e in w.R_own:
             for s in range(w.S):
                 vals = dec_value(e, w.m, s, X, Z)
